@@ -42,7 +42,9 @@ def generate(probe_files):
 
 def _generate(probe_files):
     exe = build_compiler()
-    wd = os.path.join(driver.workdir(), 'gen_probes')
+    import hashlib
+    # one directory per set of input files (a smaller set must not see the files of a larger one compiled earlier in the same run)
+    wd = os.path.join(driver.workdir(), 'gen_probes_' + hashlib.sha1('|'.join(probe_files).encode()).hexdigest()[:10])
     ind, outd = os.path.join(wd, 'in'), os.path.join(wd, 'out')
     os.makedirs(ind, exist_ok=True)
     os.makedirs(outd, exist_ok=True)
